@@ -189,6 +189,8 @@ func genClient(g *gen, quick bool) {
 			g.add(&Case{Kind: "client", Via: core.Pick(r, listeners), What: "non-utf8-host", InputHex: hexes(s), Sentinel: r.Chance(70)})
 		}
 	}
+	// the host dimension: lengths around every limit x composition x request form x listener (hosts.go)
+	genHosts(g, quick)
 	// binary garbage
 	for i := 0; i < scale(36, 2500); i++ {
 		n := core.Pick(r, []int{1, 3, 20, 200, 2000, 70000})
